@@ -10,7 +10,7 @@ only observes it (`Lru.step_mem` / `Lru.run_mem` in Lemmas/LruGhost.lean prove t
   test of a conditional `set`, also when that `set` then fails), and every `_set` (memory.py:195-196 —
   `set`, every pair of `set_many`, the write of `incr` and `expire`).  **Not** uses: a miss, `get_expire`
   (reads `self.store[key]` without `move_to_end`), `delete`, and the per-key reads of a purge sweep
-  (the sweep is shown to be order-neutral instead, Props.C11.purge_keeps_live_in_order).
+  (the sweep is shown to be order-neutral instead, Props.C11.purge_preserves_order).
 * `evs`  — one record `(victim, use log at that moment)` per `popitem(last=False)` (memory.py:197-198).
 * `gone` — keys that left the store for a reason the property accepts since they were last used:
   deleted, cleared, or found expired and collected (by a read or by a purge sweep).  A `_set` of the key
